@@ -1,0 +1,57 @@
+//go:build verif
+
+package svg
+
+import "fmt"
+
+// Exported wrapper of the unexported SVG attribute parsers, used by the C07 verification harness
+// (/verif/harness/c07). Compiled only with the build tag `verif`.
+
+// VerifC07AttrKinds lists the parser names accepted by VerifC07ParseAttr.
+var VerifC07AttrKinds = []string{
+	"value", "values", "points", "arc-points", "viewBox", "transform", "preserveAspectRatio", "d",
+	"opacity", "url", "url-fragment", "orient", "font-weight", "text-anchor", "baseline", "paint",
+}
+
+// VerifC07ParseAttr runs the attribute parser `kind` on `s` and returns its error.
+func VerifC07ParseAttr(kind, s string) error {
+	var err error
+	switch kind {
+	case "value":
+		_, err = parseValue(s)
+	case "values":
+		_, err = parseValues(s)
+	case "points":
+		_, err = parsePoints(s, nil, false)
+	case "arc-points":
+		_, err = parsePoints(s, nil, true)
+	case "viewBox":
+		_, err = parseViewbox(s)
+	case "transform":
+		_, err = parseTransform(s)
+	case "preserveAspectRatio":
+		_ = parsePreserveAspectRatio(s)
+	case "d":
+		var p pathParser
+		_, err = p.parsePath(s)
+	case "opacity":
+		_, err = parseOpacity(s)
+	case "url":
+		_, err = parseURL(s)
+	case "url-fragment":
+		_ = parseURLFragment(s)
+	case "orient":
+		_, err = parseOrientation(s)
+	case "font-weight":
+		_ = parseFontWeight(s)
+	case "text-anchor":
+		_ = parseAnchor(s)
+	case "baseline":
+		_ = parseBaseline(s)
+	case "paint":
+		_, err = newPainter(s)
+	default:
+		err = fmt.Errorf("unknown attribute parser %s", kind)
+	}
+	return err
+}
